@@ -948,7 +948,7 @@ func (hash *SexpHash) SexpString(ps *PrintState) string {
 			onKey++
 			switch s := key.(type) {
 			case *SexpStr:
-				str += indInner + `"` + s.S + `":`
+				str += indInner + s.SexpString(innerPs) + `:`
 			case *SexpSymbol:
 				if asJSON {
 					str += indInner + `"` + s.name + `":`
